@@ -659,7 +659,7 @@ class CarbonClientManager(Service):
       # Simple case, with only one replica per destination.
       for d in destinations:
         # If we can't find it, we add to the 'fake' factory / buffer.
-        factories.add(self.client_factories.get(d))
+        factories.add(self.client_factories.get(d) or self.client_factories[None])
     else:
       # Here we might have multiple replicas per destination.
       for d in destinations:
